@@ -59,6 +59,7 @@ static void kdump(int ret)
 
 #ifdef ROLE_SERVER
 static int asdu_id = 0;
+static long out_at[4096]; static unsigned long long out_id[4096]; static int out_n = 0;   /* handed out by next, not yet confirmed */
 static CS101_ASDU mk_asdu(sCS101_StaticASDU* st, int size, int id)
 {
     CS101_ASDU a = CS101_ASDU_initializeStatic(st, &alp, false, CS101_COT_SPONTANEOUS, 0, 1, false, false);
@@ -175,18 +176,27 @@ int main(void)
 #ifdef ROLE_SERVER
         else if (!strcmp(cmd, "mq")) {
             char sub[32]; sscanf(line, "%*s %31s %d %d", sub, &x, &y);
-            if (!strcmp(sub, "new")) { if (mq) MessageQueue_destroy(mq); mq = MessageQueue_create(x); asdu_id = 0; }
+            if (!strcmp(sub, "new")) { if (mq) MessageQueue_destroy(mq); mq = MessageQueue_create(x); asdu_id = 0; out_n = 0; }
             else if (!strcmp(sub, "enq")) { sCS101_StaticASDU st; MessageQueue_enqueueASDU(mq, mk_asdu(&st, x, asdu_id++)); }
             else if (!strcmp(sub, "next")) {
                 uint64_t id = 0; uint8_t* qe = NULL; int sz = 0;
                 MessageQueue_lock(mq); uint8_t* p = MessageQueue_getNextWaitingASDU(mq, &id, &qe, &sz); MessageQueue_unlock(mq);
-                if (p) printf("mqnext id=%llu size=%d at=%ld pid=%d\n", (unsigned long long) id, sz, (long) (qe - mq->buffer), p[6] | p[7] << 8); else printf("mqnext none\n");
+                if (p) { printf("mqnext id=%llu size=%d at=%ld pid=%d\n", (unsigned long long) id, sz, (long) (qe - mq->buffer), p[6] | p[7] << 8);
+                         if (out_n < 4096) { out_at[out_n] = (long) (qe - mq->buffer); out_id[out_n] = id; out_n++; } }
+                else printf("mqnext none\n");
             }
             else if (!strcmp(sub, "confirm")) { MessageQueue_lock(mq); MessageQueue_markAsduAsConfirmed(mq, mq->buffer + x, (uint64_t) y); MessageQueue_unlock(mq); }
+            else if (!strcmp(sub, "confirmoldest")) {
+                if (out_n > 0) {
+                    printf("mqconfirm at=%ld id=%llu\n", out_at[0], out_id[0]);
+                    MessageQueue_lock(mq); MessageQueue_markAsduAsConfirmed(mq, mq->buffer + out_at[0], out_id[0]); MessageQueue_unlock(mq);
+                    memmove(out_at, out_at + 1, (out_n - 1) * sizeof out_at[0]); memmove(out_id, out_id + 1, (out_n - 1) * sizeof out_id[0]); out_n--;
+                } else printf("mqconfirm none\n");
+            }
             else if (!strcmp(sub, "unconf")) { printf("mqunconf %d\n", MessageQueue_hasUnconfirmedIMessages(mq)); }
             else if (!strcmp(sub, "avail")) { printf("mqavail %d\n", MessageQueue_isAsduAvailable(mq)); }
-            else if (!strcmp(sub, "resetwait")) MessageQueue_setWaitingForTransmissionWhenNotConfirmed(mq);
-            else if (!strcmp(sub, "release")) MessageQueue_releaseAllQueuedASDUs(mq);
+            else if (!strcmp(sub, "resetwait")) { MessageQueue_setWaitingForTransmissionWhenNotConfirmed(mq); out_n = 0; }
+            else if (!strcmp(sub, "release")) { MessageQueue_releaseAllQueuedASDUs(mq); out_n = 0; }
             mq_dump();
         }
         else if (!strcmp(cmd, "hp")) {
